@@ -29,7 +29,8 @@ func TestVerifC05Sockets(t *testing.T) {
 	dynamicHostResolver = &DynamicHostResolver{interval: time.Hour, stop: 1, hostIPs: make(map[string]*AddressWithCallback)}
 	nseq := ev.Pick(400, 6000)
 	ntrial := ev.Pick(25, 400)
-	var firstMember, floods int64
+	var firstMember, floods, outages int64
+	noutage := ev.Pick(6, 60)
 	workers := 8
 	var stats c19Stats
 	var wg sync.WaitGroup
@@ -64,6 +65,47 @@ func TestVerifC05Sockets(t *testing.T) {
 				}
 				w.runSequence(seq, true, nil)
 				run.Eval(fmt.Sprintf("sockets-w%d-%d", wi, r))
+			}
+			// a member is down for a moment while requests are dispatched to it, and comes back on the
+			// same address without any change of membership: from then on every k consecutive
+			// dispatches reach each of the k members again
+			if scheme == "udp" {
+				for o := 0; o < noutage && run.Violations() <= 3; o++ {
+					n0 := w.names[0]
+					set := append([]string{}, n0.pool[:3]...)
+					dynamicHostResolver.addressResolved(n0.name, append([]string{}, set...), nil)
+					n0.apply(true, set)
+					trace := []string{"n0:{1,2,3}", "one member down for a moment, dispatches meanwhile, member back"}
+					if !w.quiesce(trace) || !w.dispatchProbe(trace) {
+						break
+					}
+					victim := fmt.Sprintf("%s:%d", set[rnd.Intn(3)], n0.port)
+					w.sinks.dropUDP(victim)
+					for i := 0; i < 1+2*rnd.Intn(3); i++ {
+						w.fx.inject("127.1.0.1", 5060, w.request("OPTIONS", "outage", fmt.Sprintf("outage-%d-%d", o, i), "a", ""))
+					}
+					time.Sleep(20 * time.Millisecond)
+					w.sinks.forget("outage")
+					if err := w.sinks.listenUDP(victim); err != nil {
+						run.Inconclusive(1)
+						break
+					}
+					time.Sleep(5 * time.Millisecond)
+					// the rotation may stand anywhere: two whole cycles, each member twice
+					good := true
+					for cyc := 0; cyc < 2 && good; cyc++ {
+						good = w.dispatchProbeAligned(trace)
+					}
+					atomic.AddInt64(&outages, 1)
+					atomic.AddInt64(&stats.steps, 1)
+					run.Eval(fmt.Sprintf("outage-w%d-%d", wi, o))
+					dynamicHostResolver.addressResolved(n0.name, []string{}, nil)
+					n0.apply(true, nil)
+					n0.ever = map[string]bool{}
+					if !w.quiesce([]string{"reset"}) {
+						return
+					}
+				}
 			}
 			// the first member arrives while the loop is busy with traffic: every request submitted
 			// after the registration has completed must be dispatched to it
@@ -130,6 +172,7 @@ func TestVerifC05Sockets(t *testing.T) {
 	run.Observe("membership_changes_applied", stats.steps)
 	run.Observe("dispatch_probes_counted_at_sockets", stats.dispatchProbes)
 	run.Observe("first_member_registered_under_traffic_trials", firstMember)
+	run.Observe("members_down_for_a_moment_and_back", outages)
 	run.Observe("filler_requests_injected_meanwhile", floods)
 	if stats.dispatchProbes < int64(nseq) {
 		run.Violation("observed-nothing", map[string]any{"dispatch_probes": stats.dispatchProbes})
